@@ -13,6 +13,7 @@ import (
 	"strconv"
 	"strings"
 	"sync"
+	"sync/atomic"
 	"syscall"
 	"time"
 )
@@ -272,8 +273,9 @@ func hasSig(r *Result, sig string) bool {
 // fires. Bounded by budget re-executions.
 func (d *Driver) Minimise(sc Scenario, p *Plan, sig string, budget int, timeout time.Duration) (*Plan, int) {
 	runs := 0
+	deadline := time.Now().Add(100 * time.Second) // wall budget per signature (slow violations, e.g. hangs, shrink less)
 	try := func(q *Plan) bool {
-		if runs >= budget {
+		if runs >= budget || time.Now().After(deadline) {
 			return false
 		}
 		runs++
@@ -407,6 +409,8 @@ func (d *Driver) Check(id, tier string) int {
 	var mu sync.Mutex
 	var wg sync.WaitGroup
 	deaths := []int{}
+	violRuns := 0
+	var stopEarly atomic.Bool
 	deathCapNoted := false
 	deathTail := map[int]string{}
 	perWorkerTimeout := 40 * time.Minute
@@ -418,7 +422,7 @@ func (d *Driver) Check(id, tier string) int {
 		go func(wk int) {
 			defer wg.Done()
 			from := wk
-			for from < total {
+			for from < total && !stopEarly.Load() {
 				// (re)start a worker at index from; a death resumes after the dead index
 				cmd := exec.Command(d.bin(sc), "worker", id, tier, strconv.FormatUint(seed, 10), strconv.Itoa(from), strconv.Itoa(nw), strconv.Itoa(total))
 				cmd.Env = d.env(sc)
@@ -458,8 +462,21 @@ func (d *Driver) Check(id, tier string) int {
 					r.stderr = ""
 					mu.Lock()
 					agg.add(&r)
+					if len(r.Violations) > 0 {
+						violRuns++
+					}
+					enough := violRuns >= 24
 					mu.Unlock()
 					cur = -1
+					if enough {
+						// the tree is broken for this property: 24 violating runs are evidence enough;
+						// do not spend the rest of the budget on it
+						stopEarly.Store(true)
+					}
+					if stopEarly.Load() {
+						cmd.Process.Kill()
+						ended = true
+					}
 				}
 				cmd.Wait()
 				timer.Stop()
